@@ -256,6 +256,13 @@ func c27AddOffset(e parser.Expr, d time.Duration) {
 // __name__ is removed from the label sets.
 const c27SigDelayedMerge = "c27-delayed-name-removal-series-merge"
 
+// Same option, different spot: cleanupMetricLabels -> mergeSeriesWithSameLabelset looks for
+// equal timestamps among the floats and among the histograms of the merged series, not
+// across the two: a float series and a histogram series that end up with the same label
+// set yield one series with two samples at one timestamp (the instant query fails with
+// "vector cannot contain metrics with the same labelset").
+const c27SigDelayedMixed = "c27-delayed-name-removal-float-and-histogram-at-one-timestamp"
+
 // Third finding: PreprocessExpr decides whether an aggregation is step invariant from its
 // operand only (`case *parser.AggregateExpr: return preprocessExprHelper(n.Expr, ...)`); a
 // parameter that changes with time (`quantile(scalar(q), m @ 0)`, `topk(scalar(k), m @ 0)`)
@@ -629,6 +636,9 @@ func c27TieAware(op string, r, i, x c27Step) string {
 		return fmt.Sprintf("%d elements in the range query step, %d in the instant query", len(r), len(i))
 	}
 	for name, st := range map[string]c27Step{"range": r, "instant": i} {
+		if x == nil {
+			break // operand not available: sizes and value multisets only
+		}
 		for k, v := range st {
 			xv, ok := x[k]
 			if !ok {
@@ -667,7 +677,7 @@ func c27TieAware(op string, r, i, x c27Step) string {
 	}
 	// ties in the operand?
 	xv := vals(x)
-	ties := false
+	ties := x == nil
 	for j := 1; j < len(xv); j++ {
 		if c27EqZero(xv[j-1], xv[j]) {
 			ties = true
@@ -759,6 +769,9 @@ func runC27(c c27Case, r *ev.Rec) error {
 		}
 	}
 	if rng.Dup != "" {
+		if c.Eng.Delayed && rng.DupMixed {
+			return ev.FailSig(c27SigDelayedMixed, "query %q (delayed name removal): the range result holds a float and a histogram sample for the same label set at the same time: %s", c.Expr, rng.Dup)
+		}
 		return ev.Failf("query %q: range result holds the same label set twice: %s", c.Expr, rng.Dup)
 	}
 	nonEmpty := 0
@@ -775,6 +788,10 @@ func runC27(c c27Case, r *ev.Rec) error {
 			}
 			if firstInstErr == nil {
 				firstInstErr = in.Err
+			}
+			if rng.Err == nil && c27LazyValidation(in.Err) {
+				r.Class("res:lazy-validation-error")
+				return nil
 			}
 			if rng.Err == nil {
 				msg := fmt.Sprintf("query %q (lookback %dms): the instant query at %d fails with %q but the range query [%d,%d] step %d succeeds", c.Expr, c.Eng.LookbackMs, ts, in.Err, c.Start, end, c.Step)
@@ -799,17 +816,23 @@ func runC27(c c27Case, r *ev.Rec) error {
 		var d string
 		if kop != "" {
 			x := c27Instant(ng, q, c.Inner, ts)
-			if x.Err != nil {
+			switch {
+			case x.Err != nil && c.Eng.Delayed:
+				// with delayed name removal the duplicate check runs on the final result only: the
+				// operand alone may fail where the selection of k elements does not
+				d = c27TieAware(kop, rs, is, nil)
+			case x.Err != nil:
 				return ev.Failf("query %q at %d succeeds but its operand %q fails: %v", c.Expr, ts, c.Inner, x.Err)
+			default:
+				d = c27TieAware(kop, rs, is, x.Steps[ts])
 			}
-			d = c27TieAware(kop, rs, is, x.Steps[ts])
 		} else {
 			d = c27DiffStep(rs, is, rel)
 		}
 		if d != "" {
 			msg := fmt.Sprintf("query %q (lookback %dms, delayed name removal %v, start timestamps %v): range query [%d,%d] step %d differs from the instant query at step %d (t=%d): %s (first = range, second = instant)\nrange step:   %s\ninstant: %s",
 				c.Expr, c.Eng.LookbackMs, c.Eng.Delayed, c.Eng.UseST, c.Start, end, c.Step, i, ts, d, c27StepString(rs), c27StepString(is))
-			if c.Eng.Delayed && kop == "" && c27NameOnlyDiff(rs, is, rel) {
+			if c.Eng.Delayed && c27NameOnlyDiff(rs, is, rel) {
 				return ev.FailSig(c27SigDelayedMerge, "%s", msg)
 			}
 			if c27KnownAggParam(ast) {
@@ -820,6 +843,10 @@ func runC27(c c27Case, r *ev.Rec) error {
 	}
 	if rng.Err != nil {
 		cl := c27ErrClass(rng.Err)
+		if _, ok := instErr[cl]; !ok && c27LazyValidation(rng.Err) {
+			r.Class("res:lazy-validation-error")
+			return nil
+		}
 		if _, ok := instErr[cl]; !ok {
 			sig := ""
 			if cl == "vector cannot contain metrics with the same labelset" && len(instErr) == 0 {
@@ -872,6 +899,16 @@ func runC27(c c27Case, r *ev.Rec) error {
 		r.NonTrivial()
 	}
 	return nil
+}
+
+// c27LazyValidation: the engine checks "anchored / smoothed modifier can only be used with
+// ..." when the call is evaluated, not when the query is created. Inside a subquery the
+// call is evaluated only if the subquery has a step to evaluate, which depends on the
+// evaluation time (and a range evaluation may evaluate subquery steps no outer step
+// consumes). The query is invalid either way; which evaluations notice is not this
+// property's business.
+func c27LazyValidation(err error) bool {
+	return err != nil && strings.Contains(err.Error(), "modifier can only be used with")
 }
 
 func c27AnnotDiff(a, b map[string]bool) string {
@@ -941,6 +978,10 @@ func runC27Offset(c c27Case, r *ev.Rec, q *c27Queryable, rel float64, feat c27Fe
 		ts := c.Start + int64(i)*c.Step
 		a := c27Instant(ng, q, sq, ts)
 		b := c27Instant(ng, q, base, ts-c.Offset)
+		if c27LazyValidation(a.Err) || c27LazyValidation(b.Err) {
+			r.Class("res:lazy-validation-error")
+			continue
+		}
 		if (a.Err == nil) != (b.Err == nil) || c27ErrClass(a.Err) != c27ErrClass(b.Err) {
 			return ev.Failf("%q at %d => err %v, but %q at %d => err %v (lookback %dms)", sq, ts, a.Err, base, ts-c.Offset, b.Err, c.Eng.LookbackMs)
 		}
@@ -954,11 +995,19 @@ func runC27Offset(c c27Case, r *ev.Rec, q *c27Queryable, rel float64, feat c27Fe
 		}
 		var d string
 		if kop != "" {
-			x := c27Instant(ng, q, c.Inner, ts-c.Offset)
-			if x.Err != nil {
-				return ev.Failf("query %q at %d succeeds but its operand %q fails: %v", c.Expr, ts-c.Offset, c.Inner, x.Err)
+			inner := c.Inner
+			if ie, err := p.ParseExpr(c.Inner); err == nil {
+				inner = ie.String() // printed like the two compared forms (matcher order matters to absent())
 			}
-			d = c27TieAware(kop, as, bs, x.Steps[ts-c.Offset])
+			x := c27Instant(ng, q, inner, ts-c.Offset)
+			switch {
+			case x.Err != nil && c.Eng.Delayed:
+				d = c27TieAware(kop, as, bs, nil)
+			case x.Err != nil:
+				return ev.Failf("query %q at %d succeeds but its operand %q fails: %v", base, ts-c.Offset, inner, x.Err)
+			default:
+				d = c27TieAware(kop, as, bs, x.Steps[ts-c.Offset])
+			}
 		} else {
 			d = c27DiffStep(as, bs, rel)
 		}
